@@ -104,7 +104,7 @@ Lemma mid_tool_kinds t : mid_kinds (tool_kinds t) = true.
 Proof.
   unfold tool_kinds, mid_kinds. rewrite forallb_app. apply andb_true_iff; split.
   - unfold auto_kinds. destruct (t_auto t =? 0); [reflexivity|]. destruct (t_auto t =? 1); reflexivity.
-  - cbn [forallb is_start_or_end negb andb]. destruct (t_res t) as [| |o e]; try reflexivity.
+  - cbn [forallb is_start_or_end negb andb]. destruct (t_res t) as [| |o e|file mx]; try reflexivity.
     rewrite !forallb_app. fold (mid_kinds (repN SToolStdout o)). fold (mid_kinds (repN SToolStderr e)).
     rewrite !mid_repN by reflexivity. reflexivity.
 Qed.
@@ -117,7 +117,7 @@ Qed.
 
 Lemma mid_stream_kinds r : mid_kinds (fst (stream_kinds r)) = true.
 Proof.
-  destruct r as [| | | | |pf|pf h c]; cbn [stream_kinds fst]; try reflexivity.
+  destruct r as [| |hst hbody| | |pf|pf h c]; cbn [stream_kinds fst]; try reflexivity.
   - change ([SReqStarted; SHeaders; SFirstByte] ++ prov_kinds pf ++ [SProvider]) with
       (SReqStarted :: SHeaders :: SFirstByte :: (prov_kinds pf ++ [SProvider])).
     unfold mid_kinds. cbn [forallb is_start_or_end negb andb]. rewrite forallb_app.
@@ -172,7 +172,7 @@ Proof.
     destruct (fu && negb st && negb prev).
     { inv4 H. split; [apply Blk_nosess; reflexivity | apply only_se_nil]. }
     inv4 H.
-    split; [apply (Blk_frames_at sid seq [SReqStarted; SHeaders; SProvider]); reflexivity | exists 0%nat; reflexivity].
+    split; [apply (Blk_frames_at sid seq (fst (stream_kinds (RHttpErr [] [])))); reflexivity | exists 0%nat; reflexivity].
   - destruct (MAX_TOOL_CALLS <=? count).
     { inv4 H. split; [apply Blk_nosess; reflexivity | apply only_se_nil]. }
     destruct (fu && negb st && negb prev).
@@ -181,7 +181,7 @@ Proof.
     assert (Mk : mid_kinds ks = true) by (subst ks; apply mid_stream_kinds). clear Eks.
     assert (B0 : Blk sid seq (frames_at sid seq ks) (seq + nlen ks)) by apply Blk_frames_at, Mk.
     assert (S0 : only_se sid (conts (frames_at sid seq ks))) by (rewrite conts_frames_at; apply only_se_nil).
-    destruct r as [| | | | |pf|pf hid calls]; try (inv4 H; split; assumption).
+    destruct r as [| |hst hbody| | |pf|pf hid calls]; try (inv4 H; split; assumption).
     destruct calls as [|c calls].
     { inv4 H. split; assumption. }
     destruct (negb (hid || prev) && negb st).
@@ -331,11 +331,11 @@ Proof.
   induction reqs as [|r rest IH]; intros count seq prev fu evs seq' reason p H; cbn [agent_loop] in H.
   - destruct (MAX_TOOL_CALLS <=? count); [inv4 H; constructor|].
     destruct (fu && negb st && negb prev); [inv4 H; constructor|].
-    inv4 H. apply (owned_frames_at sid seq [SReqStarted; SHeaders; SProvider]).
+    inv4 H. apply (owned_frames_at sid seq (fst (stream_kinds (RHttpErr [] [])))).
   - destruct (MAX_TOOL_CALLS <=? count); [inv4 H; constructor|].
     destruct (fu && negb st && negb prev); [inv4 H; constructor|].
     remember (fst (stream_kinds r)) as ks eqn:Eks. clear Eks.
-    destruct r as [| | | | |pf|pf hid calls]; try (inv4 H; apply owned_frames_at).
+    destruct r as [| |hst hbody| | |pf|pf hid calls]; try (inv4 H; apply owned_frames_at).
     destruct calls as [|c calls]; [inv4 H; apply owned_frames_at|].
     destruct (negb (hid || prev) && negb st); [inv4 H; apply owned_frames_at|].
     destruct (run_calls sid link aok (c :: calls) count _) as [[[evs1 s2] c'] ex] eqn:E1.
@@ -878,7 +878,7 @@ Proof.
   induction reqs as [|r rest IH]; intros extra count seq prev fu Hlen; [cbn [length] in Hlen; lia|].
   cbn [app agent_loop]. destruct (MAX_TOOL_CALLS <=? count) eqn:Hc; [reflexivity|].
   destruct (fu && negb st && negb prev); [reflexivity|].
-  destruct r as [| | | | |pf|pf hid calls]; try reflexivity.
+  destruct r as [| |hst hbody| | |pf|pf hid calls]; try reflexivity.
   destruct calls as [|c calls]; [reflexivity|].
   destruct (negb (hid || prev) && negb st); [reflexivity|].
   destruct (run_calls sid link aok (c :: calls) count _) as [[[evs1 s2] c'] ex] eqn:E1.
